@@ -130,7 +130,7 @@ def cases(tier, seed):
     progs = []
     for fam in "FAOHKTRE":
         fam_cases = list(gen_prog.FAMILIES[fam]("quick"))
-        step = {"E": 60, "R": 40, "K": 8, "F": 6, "A": 12, "H": 6, "O": 1, "T": 2}[fam] if quick else {"E": 12, "R": 10, "K": 2, "F": 2, "A": 3, "H": 2, "O": 1, "T": 1}[fam]
+        step = {"E": 80, "R": 50, "K": 10, "F": 8, "A": 16, "H": 8, "O": 1, "T": 2}[fam] if quick else {"E": 12, "R": 10, "K": 2, "F": 2, "A": 3, "H": 2, "O": 1, "T": 1}[fam]
         progs += fam_cases[::step]
     for case in progs:
         src = to_mamba(case["prog"])
@@ -177,6 +177,7 @@ def evaluate(case, drv):
         if bv != "ok":
             return
         res["nontrivial"] = True
+        res["stats"]["c14.compared"] = res["stats"].get("c14.compared", 0) + 1
         if mode == "bytes":
             if r["out"] != base["out"]:
                 res["fail"].append({"family": fam, "kind": "output-changes", "detail": "%s: emitted Python differs" % desc, "tags": tags + context_tags(case["src"], desc), "case": vcase})
@@ -226,3 +227,8 @@ def context_tags(src, desc):
     if re.search(r"=>", nxt) and (len(nxt) - len(nxt.lstrip())) > 0:
         tags.append("gap:before-arm")
     return tags
+
+
+def coverage(tier, agg):
+    return {"distinct_nontrivial": int(agg["stats"].get("c14.compared", 0)),
+            "explanation": "distinct_nontrivial = trivia variants of accepted bases whose output was compared byte for byte (variants are distinct texts by construction)"}
